@@ -160,24 +160,20 @@ pub fn out_same_state(a: &Output<State, E>, b: &Output<State, E>) -> bool {
     }
 }
 
-/// Trace payload: a structural hash of the expression that produced it. Leaves are small concrete ids, every
-/// operator mixes its operands non-commutatively with an operator code, so equality of two traces means "the same
-/// operands were combined with the same operators in the same order". Generic rrtk code cannot specialise on the
-/// payload type, so what is decided for `Tr` holds for every `T` (parametricity).
+/// Trace payload: the sequence of leaf ids and operator codes (4-bit digits, most significant first) of the
+/// expression that produced the value. Equality of two traces means "the same operands were combined with the same
+/// operators in the same order". Generic rrtk code cannot specialise on the payload type, so what is decided for
+/// `Tr` holds for every `T` (parametricity). Capacity 16 digits (enough for 8 operands); loop- and multiplier-free.
 #[derive(Clone, Copy, PartialEq, Eq, Debug, Default)]
-pub struct Tr(pub u64);
+pub struct Tr { pub bits: u64, pub len: u8 }
 impl Tr {
-    pub const fn leaf(id: u64) -> Tr {
-        Tr(id.wrapping_mul(0x9E37_79B9_7F4A_7C15) ^ 0x5851_F42D_4C95_7F2D)
-    }
+    pub const fn leaf(id: u64) -> Tr { Tr { bits: id & 7, len: 1 } }
+    /// a ++ [8 + op] ++ b
     pub const fn mix(a: Tr, b: Tr, op: u64) -> Tr {
-        Tr((a.0.rotate_left(13) ^ op.wrapping_mul(0xD6E8_FEB8_6659_FD93))
-            .wrapping_mul(0x1000_0000_01B3)
-            .wrapping_add(b.0.rotate_left(37) ^ 0xA5A5_A5A5_5A5A_5A5A))
+        let sh = 4 * (b.len as u32 & 15);
+        Tr { bits: (((a.bits << 4) | (8 + (op & 7))) << sh) | b.bits, len: (a.len + b.len + 1) & 31 }
     }
-    pub const fn un(a: Tr, op: u64) -> Tr {
-        Tr((a.0.rotate_left(29) ^ op.wrapping_mul(0xC2B2_AE3D_27D4_EB4F)).wrapping_mul(0x1000_0000_01B3))
-    }
+    pub const fn un(a: Tr, op: u64) -> Tr { Tr { bits: (a.bits << 4) | (8 + (op & 7)), len: (a.len + 1) & 31 } }
 }
 impl core::ops::Add for Tr { type Output = Tr; fn add(self, o: Tr) -> Tr { Tr::mix(self, o, 1) } }
 impl core::ops::Sub for Tr { type Output = Tr; fn sub(self, o: Tr) -> Tr { Tr::mix(self, o, 2) } }
@@ -189,5 +185,3 @@ impl core::ops::AddAssign for Tr { fn add_assign(&mut self, o: Tr) { *self = Tr:
 impl core::ops::SubAssign for Tr { fn sub_assign(&mut self, o: Tr) { *self = Tr::mix(*self, o, 2) } }
 impl core::ops::MulAssign for Tr { fn mul_assign(&mut self, o: Tr) { *self = Tr::mix(*self, o, 3) } }
 impl core::ops::DivAssign for Tr { fn div_assign(&mut self, o: Tr) { *self = Tr::mix(*self, o, 4) } }
-impl core::ops::Mul<f32> for Tr { type Output = Tr; fn mul(self, o: f32) -> Tr { Tr::mix(self, Tr(o.to_bits() as u64), 7) } }
-impl core::ops::DivAssign<f32> for Tr { fn div_assign(&mut self, o: f32) { *self = Tr::mix(*self, Tr(o.to_bits() as u64), 8) } }
